@@ -1417,3 +1417,492 @@ pub fn c07(rec: &RunRecord) -> Vec<Violation> {
     );
     v
 }
+
+/// C05: per-hop statistics equal an independent re-aggregation of the rounds.
+#[must_use]
+pub fn c05(rec: &RunRecord) -> Vec<Violation> {
+    use crate::refagg::{compare_hop, RefFlow};
+    let mut v = Vec::new();
+    let mut reference = RefFlow::default();
+    let max_samples = rec.sc.tracer.max_samples;
+    for (k, round) in rec.rounds.iter().enumerate() {
+        reference.apply(round);
+        let Some(state) = &round.snapshot else { continue };
+        let Ok(hops) = std::panic::catch_unwind(std::panic::AssertUnwindSafe(|| state.hops().to_vec())) else {
+            v.push(Violation::new("C05", "c05.query-panicked", format!("round {k}: hops() panicked")));
+            continue;
+        };
+        let Some(lowest) = reference.lowest else { continue };
+        for (i, hop) in hops.iter().enumerate() {
+            let ttl = usize::from(lowest) + i;
+            if ttl > 255 {
+                break;
+            }
+            for (field, detail) in compare_hop(hop, &reference.hops[ttl], max_samples) {
+                v.push(Violation::new("C05", format!("c05.{field}"), format!("after round {k}, ttl {ttl}: {detail}")));
+            }
+        }
+        if v.len() > 8 {
+            break;
+        }
+    }
+    if let RunEnd::Panic(p) = &rec.end {
+        if p.contains("state.rs") {
+            v.push(Violation::new("C05", format!("c05.panic.{}", panic_loc(p)), format!("the aggregator panicked: {p}")));
+        }
+    }
+    v
+}
+
+/// The hop addresses of a round by position (ttl offset from first-ttl), `None` = no answer.
+fn round_addresses(round: &crate::run::RoundRec, first_ttl: u8) -> Option<Vec<Option<IpAddr>>> {
+    let mut out: Vec<Option<IpAddr>> = Vec::new();
+    for p in &round.probes {
+        match p {
+            ProbeStatus::Awaited(a) => {
+                let pos = usize::from(a.ttl.0.checked_sub(first_ttl)?);
+                if out.len() <= pos {
+                    out.resize(pos + 1, None);
+                }
+            }
+            ProbeStatus::Complete(c) => {
+                let pos = usize::from(c.ttl.0.checked_sub(first_ttl)?);
+                if out.len() <= pos {
+                    out.resize(pos + 1, None);
+                }
+                out[pos] = Some(c.host);
+            }
+            // failed / skipped probes shift the implementation's positions: such rounds are
+            // held to the remaining clauses only
+            ProbeStatus::Failed(_) | ProbeStatus::Skipped => return None,
+            ProbeStatus::NotSent => {}
+        }
+    }
+    Some(out)
+}
+
+/// C15: flow identifiers are stable, consistent and bounded.
+#[must_use]
+pub fn c15(rec: &RunRecord) -> Vec<Violation> {
+    use crate::refagg::{compare_hop, RefFlow};
+    use trippy_core::{FlowEntry, FlowId, State};
+    let mut v = Vec::new();
+    let t = &rec.sc.tracer;
+    let mut prev_flows: Vec<(u64, Vec<FlowEntry>)> = Vec::new();
+    let mut refs: std::collections::BTreeMap<u64, RefFlow> = std::collections::BTreeMap::new();
+    let mut default_ref = RefFlow::default();
+    for (k, round) in rec.rounds.iter().enumerate() {
+        default_ref.apply(round);
+        let Some(state) = &round.snapshot else { continue };
+        let flows: Vec<(u64, Vec<FlowEntry>)> = state.flows().iter().map(|(f, id)| (id.0, f.entries.clone())).collect();
+        // dense ids from 1, bounded
+        for (i, (id, _)) in flows.iter().enumerate() {
+            if *id != i as u64 + 1 {
+                v.push(Violation::new("C15", "c15.ids-not-dense", format!("round {k}: flow at position {i} has id {id}")));
+            }
+        }
+        if flows.len() > t.max_flows {
+            v.push(Violation::new("C15", "c15.too-many-flows", format!("round {k}: {} flows, max-flows {}", flows.len(), t.max_flows)));
+        }
+        // a flow only ever gains knowledge
+        for (id, old) in &prev_flows {
+            let Some((_, new)) = flows.iter().find(|(i, _)| i == id) else {
+                v.push(Violation::new("C15", "c15.flow-vanished", format!("round {k}: flow {id} no longer exists")));
+                continue;
+            };
+            if new.len() < old.len() {
+                v.push(Violation::new("C15", "c15.flow-forgot", format!("round {k}: flow {id} shrank from {} to {} entries", old.len(), new.len())));
+            }
+            for (pos, (o, n)) in old.iter().zip(new.iter()).enumerate() {
+                if let FlowEntry::Known(a) = o {
+                    if n != &FlowEntry::Known(*a) {
+                        v.push(Violation::new("C15", "c15.flow-contradicts", format!("round {k}: flow {id} position {pos} changed from {o} to {n}")));
+                    }
+                }
+            }
+        }
+        // default flow aggregates every round
+        if state.round_count(State::default_flow_id()) != k + 1 {
+            v.push(Violation::new("C15", "c15.default-flow-rounds", format!("round {k}: default flow counts {} rounds", state.round_count(State::default_flow_id()))));
+        }
+        // attribution of this round
+        let rf = state.round_flow_id().0;
+        let at_limit_before = prev_flows.len() >= t.max_flows;
+        let addrs = round_addresses(round, t.first_ttl);
+        let consistent_with = |entries: &[FlowEntry], addrs: &[Option<IpAddr>]| -> bool {
+            addrs.iter().zip(entries.iter()).all(|(a, e)| match (a, e) {
+                (Some(x), FlowEntry::Known(y)) => x == y,
+                _ => true,
+            })
+        };
+        let mut attributed: Option<u64> = None;
+        if !at_limit_before {
+            if rf == 0 || !flows.iter().any(|(id, _)| *id == rf) {
+                v.push(Violation::new("C15", "c15.no-attribution", format!("round {k}: attributed to flow {rf}, which is not a registered flow")));
+            } else {
+                attributed = Some(rf);
+            }
+        } else if let Some(a) = &addrs {
+            // at the limit: a round matching an existing flow is still attributed to one
+            let seen: Vec<Option<IpAddr>> = a.iter().take(usize::from(round.largest_ttl)).copied().collect();
+            let matches: Vec<u64> = prev_flows.iter().filter(|(_, e)| consistent_with(e, &seen)).map(|(id, _)| *id).collect();
+            if !matches.is_empty() {
+                let counted = matches.iter().any(|id| {
+                    let before = refs.get(id).map_or(0, |r| r.rounds);
+                    state.round_count(FlowId(*id)) == before + 1
+                });
+                if counted && matches.contains(&rf) {
+                    attributed = Some(rf);
+                } else {
+                    v.push(Violation::new(
+                        "C15",
+                        "c15.limit-unattributed",
+                        format!("round {k}: max-flows {} reached; the round matches existing flow(s) {matches:?} but none of them was updated (round flow id {rf})", t.max_flows),
+                    ));
+                }
+            }
+        } else if flows.iter().any(|(id, _)| *id == rf) {
+            // cannot judge the match (failed/skipped probes): follow the implementation's choice
+            let before = refs.get(&rf).map_or(0, |r| r.rounds);
+            if state.round_count(FlowId(rf)) == before + 1 {
+                attributed = Some(rf);
+            }
+        }
+        if let Some(id) = attributed {
+            // position-wise agreement with every address seen in the round
+            if let (Some(a), Some((_, entries))) = (&addrs, flows.iter().find(|(i, _)| *i == id)) {
+                for (pos, addr) in a.iter().enumerate() {
+                    let Some(addr) = addr else { continue };
+                    // the round's path ends at its reported length: answers to probes that
+                    // overshot the target are not part of it
+                    if pos + usize::from(t.first_ttl) > usize::from(round.largest_ttl) {
+                        continue;
+                    }
+                    match entries.get(pos) {
+                        Some(FlowEntry::Known(x)) if x == addr => {}
+                        Some(e) => {
+                            v.push(Violation::new(
+                                "C15",
+                                "c15.attribution-disagrees",
+                                format!("round {k}: attributed to flow {id} whose position {pos} is {e}, the round saw {addr} there"),
+                            ));
+                        }
+                        None => {
+                            v.push(Violation::new(
+                                "C15",
+                                "c15.attribution-missing",
+                                format!("round {k}: attributed to flow {id} which has no entry at position {pos}, the round saw {addr} there"),
+                            ));
+                        }
+                    }
+                }
+            }
+            refs.entry(id).or_default().apply(round);
+        }
+        // per-flow round counts and statistics are those of exactly the attributed rounds
+        for (id, _) in &flows {
+            let want = refs.get(id).map_or(0, |r| r.rounds);
+            let got = state.round_count(FlowId(*id));
+            if got != want {
+                v.push(Violation::new("C15", "c15.flow-round-count", format!("round {k}: flow {id} counts {got} rounds, {want} rounds were attributed to it")));
+            }
+        }
+        if let Some(id) = attributed {
+            if let Some(r) = refs.get(&id) {
+                if let Some(lowest) = r.lowest {
+                    let hops = state.hops_for_flow(FlowId(id));
+                    for (i, hop) in hops.iter().enumerate() {
+                        let ttl = usize::from(lowest) + i;
+                        if ttl > 255 {
+                            break;
+                        }
+                        for (field, detail) in compare_hop(hop, &r.hops[ttl], t.max_samples) {
+                            v.push(Violation::new("C15", format!("c15.flow-stats.{field}"), format!("after round {k}, flow {id} ttl {ttl}: {detail}")));
+                        }
+                    }
+                }
+            }
+        }
+        prev_flows = flows;
+        if v.len() > 8 {
+            break;
+        }
+    }
+    v
+}
+
+/// C19: NAT is flagged at the first hop that sees a rewritten datagram.
+#[must_use]
+pub fn c19(rec: &RunRecord) -> Vec<Violation> {
+    use trippy_core::NatStatus;
+    let mut v = Vec::new();
+    let t = &rec.sc.tracer;
+    let applicable = !t.v6 && t.proto == Proto::Udp && t.strat == Strat::Dublin;
+    let mut expected: [Option<NatStatus>; 256] = [None; 256];
+    // hops whose expectation rests on "first responding hop quotes a datagram whose source
+    // port, but not its source address, was rewritten"
+    let mut port_only_first = [false; 256];
+    for (k, round) in rec.rounds.iter().enumerate() {
+        let attempts = attempts_of_round(rec, k);
+        if attempts.len() != round.probes.len() {
+            continue;
+        }
+        let mut prev: Option<u16> = None;
+        for (a, p) in attempts.iter().zip(&round.probes) {
+            let ProbeStatus::Complete(c) = p else { continue };
+            let AttemptOutcome::OnWire(wid) = a.outcome else { continue };
+            let w = &rec.world.wires[wid];
+            if !applicable {
+                if c.expected_udp_checksum.is_some() || c.actual_udp_checksum.is_some() {
+                    v.push(Violation::new("C19", "c19.checksums-outside-dublin-v4", format!("round {k} ttl {}: checksums reported for a configuration where NAT detection does not apply", c.ttl.0)));
+                }
+                continue;
+            }
+            let Some(r) = accepted_response(&rec.world, w) else { continue };
+            let Ok(d) = w.decoded.as_ref() else { continue };
+            // truth from the wire: what the hop quoted, and what the probe carried when sent
+            let Some(quoted) = r.quoted_udp_csum else { continue };
+            let sent = d.l4_csum;
+            let want = match prev {
+                Some(pv) => {
+                    if pv == quoted {
+                        NatStatus::NotDetected
+                    } else {
+                        NatStatus::Detected
+                    }
+                }
+                None => {
+                    if sent == quoted {
+                        NatStatus::NotDetected
+                    } else {
+                        NatStatus::Detected
+                    }
+                }
+            };
+            port_only_first[c.ttl.0 as usize] = prev.is_none() && r.rewritten == (false, true);
+            prev = Some(quoted);
+            expected[c.ttl.0 as usize] = Some(want);
+            if c.actual_udp_checksum.map(|x| x.0) != Some(quoted) {
+                v.push(Violation::new("C19", "c19.actual-checksum", format!("round {k} ttl {}: reported quoted checksum {:?}, on the wire {quoted:#06x}", c.ttl.0, c.actual_udp_checksum)));
+            }
+        }
+        let Some(state) = &round.snapshot else { continue };
+        let hops = state.hops();
+        for hop in hops {
+            let ttl = hop.ttl();
+            if ttl == 0 {
+                continue;
+            }
+            let want = if applicable {
+                expected[ttl as usize].unwrap_or(NatStatus::NotApplicable)
+            } else {
+                NatStatus::NotApplicable
+            };
+            if hop.last_nat_status() != want {
+                v.push(Violation::new(
+                    "C19",
+                    format!(
+                        "c19.status.{}{:?}-instead-of-{want:?}",
+                        if applicable && port_only_first[ttl as usize] { "port-only-rewrite." } else { "" },
+                        hop.last_nat_status()
+                    ),
+                    format!("after round {k}, ttl {ttl}: NAT status {:?}, the quoted checksums on the wire give {want:?}", hop.last_nat_status()),
+                ));
+            }
+        }
+        if v.len() > 8 {
+            break;
+        }
+    }
+    v
+}
+
+/// What the tracer should report for an encoded extension object list.
+fn expected_extensions(objs: &[crate::wire::ExtObject]) -> trippy_core::Extensions {
+    use trippy_core::{Extension, MplsLabelStack, MplsLabelStackMember, UnknownExtension};
+    let extensions = objs
+        .iter()
+        .map(|o| {
+            if o.class == 1 {
+                let members = o
+                    .payload
+                    .chunks_exact(4)
+                    .map(|c| {
+                        let v = u32::from_be_bytes([c[0], c[1], c[2], c[3]]);
+                        MplsLabelStackMember {
+                            label: v >> 12,
+                            exp: ((v >> 9) & 7) as u8,
+                            bos: ((v >> 8) & 1) as u8,
+                            ttl: (v & 0xff) as u8,
+                        }
+                    })
+                    .collect();
+                Extension::Mpls(MplsLabelStack { members })
+            } else {
+                Extension::Unknown(UnknownExtension {
+                    class_num: o.class,
+                    class_subtype: o.ctype,
+                    bytes: o.payload.clone(),
+                })
+            }
+        })
+        .collect();
+    trippy_core::Extensions { extensions }
+}
+
+/// C14: ICMP multi-part extensions are parsed faithfully and always terminate.
+#[must_use]
+pub fn c14(rec: &RunRecord) -> Vec<Violation> {
+    let mut v = Vec::new();
+    let t = &rec.sc.tracer;
+    for (k, round) in rec.rounds.iter().enumerate() {
+        let attempts = attempts_of_round(rec, k);
+        if attempts.len() != round.probes.len() {
+            continue;
+        }
+        for (a, p) in attempts.iter().zip(&round.probes) {
+            let AttemptOutcome::OnWire(wid) = a.outcome else { continue };
+            let w = &rec.world.wires[wid];
+            let Some(r) = accepted_response(&rec.world, w) else { continue };
+            if !matches!(r.kind, RespKind::TimeExceeded | RespKind::Unreachable) {
+                continue;
+            }
+            let layout = match (&r.exts, r.rfc4884_len) {
+                (Some(_), 0) => "legacy128",
+                (Some(_), _) => "rfc4884",
+                (None, 0) => "plain",
+                (None, _) => "rfc4884-noext",
+            };
+            match p {
+                ProbeStatus::Complete(c) => {
+                    if !t.ext_enabled {
+                        if c.extensions.is_some() {
+                            v.push(Violation::new("C14", "c14.reported-while-disabled", format!("round {k} ttl {}: extensions reported although parsing is disabled", c.ttl.0)));
+                        }
+                        continue;
+                    }
+                    // clipped by the tracer's 1024-octet receive buffer: the tail is gone
+                    if r.ambiguous_ext || r.dgram_len > 1024 {
+                        continue;
+                    }
+                    let want = r.exts.as_ref().map(|o| expected_extensions(o));
+                    if c.extensions != want {
+                        v.push(Violation::new(
+                            "C14",
+                            format!("c14.extensions-differ.{layout}.{}", if t.v6 { "v6" } else { "v4" }),
+                            format!(
+                                "round {k} ttl {} ({layout}, length attribute {}): reported {:?}, encoded {:?}",
+                                c.ttl.0, r.rfc4884_len, c.extensions, want
+                            ),
+                        ));
+                    }
+                }
+                ProbeStatus::Awaited(x) => {
+                    // the original datagram was not recovered: identity lost
+                    v.push(Violation::new(
+                        "C14",
+                        format!("c14.identity-lost.{layout}.{}", if t.v6 { "v6" } else { "v4" }),
+                        format!("round {k} ttl {}: a genuine {:?} ({layout}, length attribute {}) was handed over but the probe is reported awaited", x.ttl.0, r.kind, r.rfc4884_len),
+                    ));
+                }
+                _ => {}
+            }
+        }
+        if v.len() > 8 {
+            break;
+        }
+    }
+    match &rec.end {
+        RunEnd::Panic(p) => v.push(Violation::new("C14", format!("c14.panic.{}", panic_loc(p)), format!("the tracer panicked: {p}"))),
+        RunEnd::Err(text, _) if text.contains("invalid packet") => {
+            v.push(Violation::new("C14", "c14.packet-error", format!("a standards-conforming message ended the trace with {text}")));
+        }
+        _ => {}
+    }
+    v
+}
+
+
+/// C04: no inbound packet, however malformed, can crash the tracer.
+#[must_use]
+pub fn c04(rec: &RunRecord) -> Vec<Violation> {
+    let mut v = Vec::new();
+    let t = &rec.sc.tracer;
+    let cell = format!("{:?}.{}.{}", t.proto, if t.v6 { "v6" } else { "v4" }, if t.ext_enabled { "ext" } else { "noext" });
+    if let RunEnd::Panic(p) = &rec.end {
+        let kind = if p.contains("overflow") { "overflow" } else { "panic" };
+        v.push(Violation::new(
+            "C04",
+            format!("c04.{kind}.{}", panic_loc(p)),
+            format!("the receive path panicked ({cell}; mutation {:?}): {p}", rec.sc.mutation),
+        ));
+    }
+    if let Some(e) = &rec.world.harness_error {
+        v.push(Violation::new("C04", "c04.no-termination", format!("the run did not end within its call budget ({cell}): {e}")));
+    }
+    if let Some((view, what)) = &rec.world.sniff_failure {
+        v.push(Violation::new(
+            "C04",
+            format!("c04.accessor.{view}.{}", panic_loc(what)),
+            format!("an accessor of {view} failed on a received datagram ({cell}; mutation {:?}): {what}", rec.sc.mutation),
+        ));
+    }
+    v
+}
+
+
+/// C16 (builder path): every configuration the builder accepts can execute rounds without
+/// panicking; an unsupported combination is rejected before any socket is created.
+#[must_use]
+pub fn c16(rec: &RunRecord) -> Vec<Violation> {
+    let mut v = Vec::new();
+    let t = &rec.sc.tracer;
+    let combo = format!(
+        "{:?}.{:?}.{}",
+        t.proto,
+        t.strat,
+        match t.ports {
+            Ports::None => "none",
+            Ports::FixedSrc(_) => "src",
+            Ports::FixedDest(_) => "dest",
+            Ports::FixedBoth(..) => "both",
+        }
+    );
+    match &rec.end {
+        RunEnd::Rejected(_) => {
+            if rec.calls_total != 0 {
+                v.push(Violation::new("C16", "c16.rejected-after-sockets", format!("the builder rejected the configuration after {} socket calls", rec.calls_total)));
+            }
+        }
+        RunEnd::Panic(p) => {
+            let loc = panic_loc(p);
+            let what = if p.contains("not implemented") {
+                format!("c16.unimplemented.{combo}")
+            } else {
+                format!("c16.panic.{loc}")
+            };
+            v.push(Violation::new(
+                "C16",
+                what,
+                format!(
+                    "accepted by the builder ({combo}, first-ttl {}, max-ttl {}, max-inflight {}, packet size {}, initial sequence {}) but tracing panicked: {p}",
+                    t.first_ttl, t.max_ttl, t.max_inflight, t.packet_size, t.initial_seq
+                ),
+            ));
+        }
+        _ => {}
+    }
+    if let Some(e) = &rec.world.harness_error {
+        v.push(Violation::new("C16", "c16.no-termination", format!("the run did not end within its call budget: {e}")));
+    }
+    // querying the resulting state must not panic either
+    if let Some(s) = &rec.final_state {
+        let ok = std::panic::catch_unwind(std::panic::AssertUnwindSafe(|| {
+            let _ = (s.hops().len(), s.target_hop(trippy_core::State::default_flow_id()).ttl(), s.round_count(trippy_core::State::default_flow_id()));
+        }));
+        if ok.is_err() {
+            v.push(Violation::new("C16", "c16.state-query-panicked", "querying the state of an accepted configuration panicked".to_string()));
+        }
+    }
+    v
+}
